@@ -1,5 +1,7 @@
 (** M-CLIENT (v4): executable model of [rumqttc::MqttState] (rumqttc/src/state.rs), written
     function by function after the Rust.  Dev profile (overflow checks on).  No proofs here.
+    This is the code AFTER the fix: commits for findings F4 (af37a3d), F9 (3b55918) and
+    F8 (d47ed07); the code as it was before them is Client/State4Orig.v.
 
     Every function returns [Outcome (state * error) (state * A)]: a Rust [Err] leaves the
     mutations done before the [?] in place, so the error case carries the state too.
@@ -96,7 +98,7 @@ Definition outgoing_publish (s : state) (p : publish) : R (option packet) :=
       match vget (outgoing_pub s) pkid with
       | None => Err (s, EUnsolicited pkid)
       | Some slot =>
-          if is_some slot
+          if is_some slot || bit (outgoing_rel s) pkid
           then Ok (push_event (set_collision s (Some p)) (EvOut (OAwaitAck pkid)), None)
           else
             do (s, _) <- pub_store s pkid (Some p);
@@ -209,9 +211,7 @@ Definition handle_incoming_pubcomp (s : state) (id : N) : R (option packet) :=
     do (s, _) <- rel_set s id false;
     do (s, _) <- inflight_dec s;
     match check_collision s id with
-    | (s, Some p) =>
-        let s := push_event s (EvOut (OPublish (p_pkid p))) in
-        Ok (set_cpc s 0, Some (PPublish p))
+    | (s, Some p) => resend_collided s p
     | (s, None) => Ok (s, None)
     end.
 
@@ -231,7 +231,8 @@ Definition handle_incoming_packet (s : state) (pk : packet) : R (option packet) 
       Err (s, EWrongPacket)
   end.
 
-(** [clean]: [split_at_mut(last_puback + 1)], second half first *)
+(** [clean]: [split_at_mut(last_puback + 1)], second half first; then the releases; then the
+    parked collision (F8 fix) *)
 Definition clean (s : state) : Outcome (state * error) (state * list request) :=
   let mid := S (idx (last_puback s)) in
   if Nat.ltb (length (outgoing_pub s)) mid then Panic P_SPLIT
@@ -240,13 +241,15 @@ Definition clean (s : state) : Outcome (state * error) (state * list request) :=
     let second_half := skipn mid (outgoing_pub s) in
     let pubs := map RPublish (somes (second_half ++ first_half)) in
     let rels := map RPubRel (ones (outgoing_rel s)) in
+    let parked := match collision s with Some p => [RPublish p] | None => [] end in
     let s := set_pub s (repeat None (length (outgoing_pub s))) in
     let s := set_rel s (repeat false (length (outgoing_rel s))) in
+    let s := set_collision s None in
     let s := set_incoming s [] in
     let s := set_await s false in
     let s := set_cpc s 0 in
     let s := set_inflight s 0 in
-    Ok (s, pubs ++ rels).
+    Ok (s, pubs ++ rels ++ parked).
 
 (** ---- the state machine the drivers step: one op = one public API call *)
 Inductive op := Out (r : request) | In (p : packet) | Clean.
